@@ -156,5 +156,9 @@ func VerifC19SignPendingInput() {
 	if c19Prev.mode == 2 {
 		rt.Assert(err != nil, "unknown-previous-transaction-refused")
 	}
+	// C03: the input has no witness and SigHashSingle cannot sign it (there is no output with its index), so
+	// the script engine cannot be satisfied: success must never be reported for it
+	rt.Assert(err != nil, "unsigned-input-is-never-reported-signed")
+	rt.Assert(len(tx.TxIn) == 1 && len(tx.TxIn[0].Witness) == 0 && tx.TxIn[0].PreviousOutPoint.Index == vout && len(tx.TxOut) == 0, "a-refused-signing-alters-nothing")
 	rt.Reach("end")
 }
